@@ -13,6 +13,8 @@ import Genq.Model.Codec
 import Genq.Model.CodecSkel
 import Genq.Extracted.Codec
 import Genq.Proofs.CodecFaithful
+import Genq.Model.ConvSkel
+import Genq.Extracted.Conv
 namespace Genq.Collect
 
 /-- **C02_fragmentMatches_is_DoesFragmentTypeApply** — on a well-formed schema, for an object
@@ -203,4 +205,11 @@ theorem C02_codec_template_tie :
     Extracted.unmarshalTmpl = CodecSkel.unmarshalTmpl ∧
     Extracted.unmarshalHelperTmpl = CodecSkel.unmarshalHelperTmpl ∧
     Extracted.flattenedFieldsSkeleton = CodecSkel.flattenedFieldsSkeleton := ⟨rfl, rfl, rfl⟩
+end Genq
+
+namespace Genq
+
+/-- **C02_fragment_matches_tie** — fragmentMatches / possibleObjectTypes, as in /repo now (regenerated on every run), equal to the copy the model was written from -/
+theorem C02_fragment_matches_tie : Extracted.convertTypeSkeleton = ConvSkel.convertTypeSkeleton := rfl
+
 end Genq
